@@ -148,7 +148,10 @@ def check_maps(ctx, c):
         tol = tol + 1e-7 * (1 + np.abs(x))
     # formulas built on (|x| + 1) or (x + shift) carry the absolute rounding of that sum
     if name in ("YeoJohnson", "Modulus", "BoxCoxShift"):
-        tol = tol + 64 * 2.3e-16 * (1.0 + abs(p.get("shift", 0.0)))
+        # ((1+|x|)^e - 1)/e cancels for small exponents e: absolute rounding eps/|e|
+        expo = [abs(lam)] + ([abs(2.0 - lam)] if name == "YeoJohnson" else [])
+        expo = min([1.0] + [e for e in expo if e > 1e-8])
+        tol = tol + 64 * 2.3e-16 * (1.0 + abs(p.get("shift", 0.0))) / expo
     err = np.abs(back - x)
     ctx.event("roundtrip_values", x.size)
     bad = ~(err <= tol)
